@@ -13,7 +13,7 @@ import traceback
 from . import build, run
 from .extract import Undecided
 
-RLIMIT = '60'
+RLIMIT = '150'
 MULTI = '6'
 
 
